@@ -557,7 +557,7 @@ def gen_chains(rng, n):
     cases = []
     pool = ["a", "b", "t", "u", "w", "g.x", "g.y", "h.x"]
     for _ in range(n):
-        keys = rng.sample(pool, rng.randint(4, 6))
+        keys = rng.sample(pool, rng.randint(5, 6))
         decls = [{"key": k, "kind": "int", "default": rand_val(rng, "int"), "required": False,
                   "alias": "long" if rng.random() < 0.2 else None} for k in keys]
         k = rng.randint(2, 3)
